@@ -57,6 +57,7 @@ Scan(q, sz, dd) ==
   IF q = <<>>
   THEN IF sz < MaxSize /\ nextC <= NConns
        THEN [kind |-> "create", q |-> q, sz |-> sz + 1, dd |-> dd, c |-> nextC]
+       ELSE IF sz < MaxSize THEN [kind |-> "bound", q |-> q, sz |-> sz, dd |-> dd, c |-> NoConn]
        ELSE [kind |-> "timeout", q |-> q, sz |-> sz, dd |-> dd, c |-> NoConn]
   ELSE LET c == Head(q) IN
        IF poisoned[c] THEN Scan(Tail(q), sz - 1, dd \cup {c})
@@ -73,6 +74,7 @@ Apply(r) ==
 
 Get ==
   /\ rec = NoConn /\ Spend
+  /\ Scan(idle, size, dead).kind # "bound"     \* (supply of connection ids exhausted: not explored)
   /\ Apply(Scan(idle, size, dead))
   /\ UNCHANGED <<poisoned, broken, invalid, busy>>
 
@@ -81,7 +83,7 @@ Get ==
 GetResume ==
   /\ rec # NoConn /\ busy[rec] = "none"
   /\ IF poisoned[rec] \/ broken[rec] \/ invalid[rec]
-     THEN Apply(Scan(idle, size - 1, dead \cup {rec}))
+     THEN Scan(idle, size - 1, dead \cup {rec}).kind # "bound" /\ Apply(Scan(idle, size - 1, dead \cup {rec}))
      ELSE /\ held' = held \cup {rec} /\ rec' = NoConn /\ UNCHANGED <<idle, size, dead, nextC>>
   /\ UNCHANGED <<poisoned, broken, invalid, busy, budget>>
 
